@@ -270,10 +270,17 @@ class EngineB:
                     model = self._model_from(s.model(), inputs, Z)
                     failures[cl.name].append((f"clause false on a feasible path; model {model}", model, path))
         except LoopInvariantFailure as e:
+            # one named obligation carries the failure; the clauses that rest on the invariant are not decided
+            lo = Obligation(id=f"{base_id}.loop-invariant", props=list(case.props or [prop_id]), unit=c.qualname, backend="z3",
+                            formula="the inductive loop invariant(s) and ghost obligations of the contract hold on entry and "
+                                    "are preserved by every iteration")
+            lo.where, lo.src_hash = msrc.where(fn), msrc.func_hash(fn)
+            lo.status = REFUTED if "counterexample" in str(e) else UNDECIDED
+            lo.detail = f"loop invariant obligation failed: {e}"
             for name, ob in obs.items():
-                ob.status = REFUTED if "counterexample" in str(e) else UNDECIDED
-                ob.detail = f"loop invariant obligation failed: {e}"
-            return list(obs.values())
+                ob.status = UNDECIDED
+                ob.detail = "not decided: rests on the loop-invariant obligation of this case, which failed"
+            return list(obs.values()) + [lo]
         except Refuted as e:
             for name, ob in obs.items():
                 if name == "no-exception-escapes":
@@ -317,6 +324,15 @@ class EngineB:
                     ob.detail += f"; {len(I.loop_obligations)} loop-invariant obligations (entry / preservation) discharged"
         self.rep.extra.setdefault("paths_explored", 0)
         self.rep.extra["paths_explored"] += npaths
+        if I.loop_obligations:
+            lo = Obligation(id=f"{base_id}.loop-invariant", props=list(case.props or [prop_id]), unit=c.qualname, backend="z3",
+                            formula="the inductive loop invariant(s) and ghost obligations of the contract hold on entry and "
+                                    "are preserved by every iteration")
+            lo.where, lo.src_hash = msrc.where(fn), msrc.func_hash(fn)
+            lo.status = PROVED
+            lo.time_s = 0.0
+            lo.detail = f"{len(I.loop_obligations)} verification conditions (entry / preservation / ghost) valid over all paths"
+            return list(obs.values()) + [lo]
         return list(obs.values())
 
     def _model(self, I, extra, inputs):
@@ -438,6 +454,8 @@ def discharge(rep, kf, contracts, prop_id, tier="quick", seed=0, summaries=None)
                 if ob.status != REFUTED:
                     continue
                 clname = ob.id.rsplit(".", 1)[1]
+                if clname == "loop-invariant":
+                    continue            # reported as it is: no input to search for (the verifier's reason is attached)
                 cl = by_name.get(clname)
                 if cl is None:
                     # the raises clause
